@@ -153,6 +153,64 @@ func C04(c *fw.Ctx) {
 			}
 		}
 	}
+	// (b2) right and wrong argument counts at every call position
+	mkCallee := []struct {
+		name string
+		mk   func() *model.N
+	}{
+		{"named", func() *model.N { return model.Id("jog") }},
+		{"variable", func() *model.N { return model.Id("jv") }},
+		{"element", func() *model.N { return model.Idx(model.Id("ja"), model.Num(0)) }},
+		{"property", func() *model.N { return model.Prop(model.Id("jo"), "f") }},
+		{"returned", func() *model.N { return model.CallN("getjog") }},
+	}
+	for _, ce := range mkCallee {
+		for nargs := 0; nargs <= 3; nargs++ {
+			for pos := 0; pos < 10; pos++ {
+				if !c.Mine() {
+					continue
+				}
+				var args []*model.N
+				for i := 0; i < nargs; i++ {
+					args = append(args, model.Num(float64(i+1)))
+				}
+				call := func() *model.N { return model.Call(ce.mk(), args...) }
+				pre := []*model.N{
+					model.Fun("jog", []string{"a", "b"}, model.Print(model.Str("in-jog")), model.Return(model.Bin("+", model.Bin("*", model.Id("a"), model.Num(10)), model.Id("b")))),
+					model.Fun("getjog", nil, model.Return(model.Id("jog"))),
+					model.Fun("id1", []string{"x"}, model.Return(model.Id("x"))),
+					model.Var("jv", model.Id("jog")), model.Var("ja", model.Arr(model.Id("jog"))), model.Var("jo", model.Obj([]string{"f"}, []*model.N{model.Id("jog")})),
+					T("before"),
+				}
+				var body []*model.N
+				switch pos {
+				case 0:
+					body = []*model.N{model.ExprS(call())}
+				case 1:
+					body = []*model.N{model.Print(call())}
+				case 2:
+					body = []*model.N{model.Var("r", call()), model.Print(model.Id("r"))}
+				case 3: // operand of return inside a function
+					body = []*model.N{model.Fun("w", []string{"x"}, T("in-w"), model.Return(call())), model.Print(model.CallN("w", model.Num(5)))}
+				case 4: // return operand nested in an if inside a loop inside a function
+					body = []*model.N{model.Fun("w", []string{"x"}, model.While(model.Bool(true), model.Block(model.If(model.Bin(">", model.Id("x"), model.Num(0)), model.Return(call()), nil), model.Break())), model.Return(model.Num(0))), model.Print(model.CallN("w", model.Num(5)))}
+				case 5:
+					body = []*model.N{model.Print(model.CallN("id1", call()))}
+				case 6:
+					body = []*model.N{model.Print(model.CallN(model.BiAbs, call()))}
+				case 7:
+					body = []*model.N{model.Print(model.Arr(model.Num(0), call()))}
+				case 8:
+					body = []*model.N{model.If(call(), T("then"), T("else"))}
+				case 9: // tail position of a recursive function
+					body = []*model.N{model.Fun("w", []string{"n"}, model.If(model.Bin("<=", model.Id("n"), model.Num(0)), model.Return(call()), nil), model.Return(model.CallN("w", model.Bin("-", model.Id("n"), model.Num(1))))), model.Print(model.CallN("w", model.Num(2)))}
+				}
+				prog := append(pre, body...)
+				prog = append(prog, T("after"))
+				run(fmt.Sprintf("arity-position|%s|%d", ce.name, pos), prog)
+			}
+		}
+	}
 	// (c) callee kinds
 	for _, v := range c14Values() {
 		for nargs := 0; nargs <= 1; nargs++ {
